@@ -19,6 +19,7 @@ import (
 	"github.com/cosmos72/gomacro/imports"
 	xr "github.com/cosmos72/gomacro/xreflect"
 
+	"verif/harness/c29t"
 	"verif/harness/core"
 )
 
@@ -59,10 +60,10 @@ type c29Root struct {
 }
 
 type c29CorpusCase struct {
-	Kind  string   `json:"kind"` // "corpus"
-	Mode  string   `json:"mode"`
-	Root  string   `json:"root"`
-	Steps []string `json:"steps"`
+	Kind   string   `json:"kind"` // "corpus"
+	Mode   string   `json:"mode"`
+	Root   string   `json:"root"`
+	Steps  []string `json:"steps"`
 	Other  string   `json:"other,omitempty"`
 	OSteps []string `json:"osteps,omitempty"`
 	Pre    string   `json:"pre,omitempty"` // a type converted first (minimal history)
@@ -86,8 +87,31 @@ func c29Roots() []c29Root {
 			roots = append(roots, c29Root{Label: path + " Proxies " + name, Pkg: path, rt: rt})
 		}
 	}
+	// embedding shapes the standard library does not have (diamond, twin siblings)
+	for name, rt := range c29t.Shapes {
+		roots = append(roots, c29Root{Label: "verif/harness/c29t Types " + name, Pkg: "verif/harness/c29t", rt: rt})
+	}
 	sort.Slice(roots, func(i, j int) bool { return roots[i].Label < roots[j].Label })
 	return roots
+}
+
+// c29Promoted collects the names of all fields and methods reachable through embedded structs.
+func c29Promoted(rt r.Type, depth int, names map[string]bool) {
+	if rt.Kind() == r.Ptr {
+		rt = rt.Elem()
+	}
+	if rt.Kind() != r.Struct || depth > 4 {
+		return
+	}
+	for i := 0; i < rt.NumField(); i++ {
+		f := rt.Field(i)
+		if f.PkgPath == "" {
+			names[f.Name] = true
+		}
+		if f.Anonymous {
+			c29Promoted(f.Type, depth+1, names)
+		}
+	}
 }
 
 // c29Component follows one step from a reflect type.
@@ -547,6 +571,20 @@ func (u *c29CorpusU) check(rt r.Type) (diffs []c29Diff, emulated bool) {
 				attr("Field.Tag", rf.Tag, f.Tag)
 				attr("Field.Index", rf.Index, f.Index)
 				same(fmt.Sprintf("Field(%d).Type", i), f.Type, rf.Type)
+			}
+		})
+		guard("FieldByName", func() {
+			// selector lookup through embedded fields: reflect finds a name iff it is unique at
+			// the shallowest depth where it occurs
+			names := map[string]bool{}
+			c29Promoted(rt, 0, names)
+			for name := range names {
+				_, ok := rt.FieldByName(name)
+				_, count := t.FieldByName(name, "")
+				if ok != (count == 1) {
+					add("attr-differs", "(FieldByName.count)", fmt.Sprintf("field %s: reflect finds it uniquely = %v, FieldByName count = %d", name, ok, count))
+					break
+				}
 			}
 		})
 	case r.Ptr:
